@@ -30,6 +30,7 @@ def run(tier, seed):
     chk.count('cells', len(zoo.cells()))
     for part in pmap(lm.c12_unit, units):
         chk.merge(part)
+    chk.expect('executions', len(units) * 10)
     chk.assumptions = ["dyadic times, so the harness's grid equals the library's bit-for-bit",
                        "float32 interpolants compared to 2e-5 relative, float64 to 1e-12"]
     return chk
